@@ -36,6 +36,8 @@ def generate(run, exe, env):
     if not m:
         raise vf.HarnessError("hdlc_send_to_phone: no sercomm_alloc_msgb(<literal>) found")
     vals["send_alloc"] = m.group(1)
+    if int(vals["write_buf"]) < 1 or int(vals["send_max"]) < 0:
+        raise vf.HarnessError("osmocon dumper: could not observe write_buf / send_max (%s, %s)" % (vals["write_buf"], vals["send_max"]))
 
     def octs(h):
         return vf.lean_nat_list(bytes.fromhex(h))
